@@ -126,12 +126,21 @@ func resolveReference(base, ref *url.URL) *url.URL {
 // Location; [url.Parse] accepts such a value but then re-encodes the whole
 // path by its own rules, which also escape "!'()*" and turn "%2F" into a
 // slash: the key derived from it was not the key of the URI the field names.
+//
+// The query (and the fragment) are left alone: [url.Parse] keeps a query as
+// it is written, for a request URL as for a reference, and a request URL's
+// key holds those bytes. "/list?ids=1|2" in Location has to name the resource
+// that was requested as "/list?ids=1|2".
 func escapeNonURIBytes(s string) string {
 	const upperhex = "0123456789ABCDEF"
+	end := strings.IndexAny(s, "?#")
+	if end < 0 {
+		end = len(s)
+	}
 	var b strings.Builder
 	for i := 0; i < len(s); i++ {
 		c := s[i]
-		if c <= 0x20 || c >= 0x7f || strings.IndexByte("\"<>\\^`{|}", c) >= 0 {
+		if i < end && (c <= 0x20 || c >= 0x7f || strings.IndexByte("\"<>\\^`{|}", c) >= 0) {
 			b.WriteByte('%')
 			b.WriteByte(upperhex[c>>4])
 			b.WriteByte(upperhex[c&15])
